@@ -230,7 +230,12 @@ def classify_by_sections(by_merchant, sections_config, num_months=12):
         # Convert transaction format for section_engine
         section_txns = []
         for txn in txns:
-            txn_date = datetime.strptime(txn['month'] + '-15', '%Y-%m-%d')
+            # Rebuild the payment's real date (month is 'YYYY-MM', date is 'MM/DD') so that
+            # by("day") and by("week") group by day/week; fall back to mid-month
+            try:
+                txn_date = datetime.strptime(txn['month'] + '-' + txn['date'].split('/')[1], '%Y-%m-%d')
+            except (KeyError, IndexError, ValueError, AttributeError):
+                txn_date = datetime.strptime(txn['month'] + '-15', '%Y-%m-%d')
             section_txns.append({
                 'amount': txn['amount'],
                 'date': txn_date,
